@@ -327,6 +327,7 @@ func runCheck(id, tier string) int {
 			"obligations_by_rule":  rules,
 			"instance_floors":      r.Floors,
 			"samples":              samples,
+			"source_normaliser":    normaliserNote(p),
 			"checker_cmd":          "bin/ctverif check " + id + " --tier " + tier,
 			"exhaustive":           false,
 		},
@@ -348,6 +349,22 @@ func runCheck(id, tier string) int {
 		return 1
 	}
 	return 0
+}
+
+// normaliserNote reports what the source normaliser (inline.go) did on this tree.
+func normaliserNote(p *Prog) any {
+	if p == nil || p.Inline == nil {
+		return "no function outside the confirmed baseline list: the tree was analysed as it is"
+	}
+	return map[string]any{
+		"unknown_helpers": p.Inline.Helpers,
+		"expanded":        p.Inline.Inlined,
+		"left_alone":      p.Inline.Skipped,
+		"dropped":         p.Inline.Removed,
+		"renames_undone":  p.Inline.Renamed,
+		"library_models":  p.Inline.Modelled,
+		"signatures_back": p.Inline.Reshaped,
+	}
 }
 
 func firstLines(s string, n int) string {
